@@ -334,6 +334,10 @@ def reg_norm_gramian(G, s, norm_eps, reg_eps):
     return [[Gn[i][j] + (reg_eps if i == j else 0) for j in range(m)] for i in range(m)]
 
 
+def round_dyadic(x, bits):
+    return F(round(x * 2 ** bits), 2 ** bits)
+
+
 def near(a, b, rel=1e-6):
     return abs(a - b) <= rel * max(abs(a), abs(b))
 
@@ -376,7 +380,11 @@ def model_expr(name, p, J, oracles=None):
         o["s"] = s
         o["qp"] = table
         fn = "agg_upgrad" if name == "UPGrad" else "agg_dualproj"
-        return (f"(rout ({fn} QN {qp_table_expr(table)} {popt(pref)} {cq(s)} {cq(ne)} {cq(re_)} {Jq}))")
+        # the model run gets the oracle answers rounded to dyadic rationals (2^-140): exact sums of
+        # several QP solutions have denominators of thousands of bits, which vm_compute's gcd
+        # cannot reduce in reasonable time; the exact answers are kept for the KKT certificates
+        rtable = [(uu, [round_dyadic(x, 140) for x in w]) for uu, w in table]
+        return (f"(rout ({fn} QN {qp_table_expr(rtable)} {popt(pref)} {cq(s)} {cq(ne)} {cq(re_)} {Jq}))")
     if name == "MGDA":
         return f"(Ok (vout (agg_mgda QN {cq(F(p['epsilon']))} {int(p['max_iters'])}%nat {Jq})))"
     if name == "TrimmedMean":
